@@ -6,6 +6,8 @@ import Proofs.C01Read64
 import Proofs.C01Write64
 import Proofs.C01Ahead
 import Proofs.C01ReadAt
+import Proofs.C01Buffer
+import Proofs.C01IOReader
 /-!
   C01 — bit-exact reads through any composition of bit and file readers: property theorems about the
   model (FqModel/Bitio.lean: Read64/Write64/copyBufBits/Buffer; FqModel/C01Readers.lean: the readers;
@@ -130,6 +132,40 @@ example :
     (match step 8 (newSect exMulti 10 12) (.readAt 1 12) with
       | .ok (_, res) => (res.n, res.bits, res.err) | _ => (0, [], none)) = (0, [], some .eof) := by
   decide
+
+/-! ### byte-oriented view: IOReader / IOReadSeeker -/
+
+/-- C01 core.  bitio.NewIOReader(r) / NewIOReadSeeker(r) on a fresh well-formed bit reader r (byte buffer,
+    section, multi reader — aligned or not, any nesting): for EVERY chunking (sequence of len(p) > 0) the bytes
+    delivered by Read are a prefix of `bitsToBytesPadR (den r)` — the bits unchanged, the trailing partial byte
+    padded with zero bits —, they are ALL of it as soon as EOF is reported, no other error is reported, and EOF
+    is reported after at most len+1 reads (no hang, no Go panic: every `copyBufBits`/`Read64`/`Write64` index
+    in IOReader.Read and bitio.Buffer is in range). -/
+theorem ioReader_bytes (d : Nat) (r : Rd) (seekable : Bool) (hr : WFAt d (den r) r 0) (chunks : List Nat)
+    (hpos : ∀ n ∈ chunks, 0 < n) :
+    let out := readAll (d + 1) (.ioBytes r seekable none {} 0) chunks
+    out.1 = (bitsToBytesPadR (den r)).take out.1.length ∧
+    (out.2 = some .eof → out.1 = bitsToBytesPadR (den r)) ∧
+    (out.2 = none ∨ out.2 = some .eof) ∧
+    ((bitsToBytesPadR (den r)).length < chunks.length → out.2 = some .eof) :=
+  ioReader_bytes' d r seekable hr chunks hpos
+
+/-- copyBufBits(dst, dstStart, src, srcStart, n, zero=true) moves the n bits unchanged and zero fills the
+    rest of the last byte; nothing else changes -/
+theorem copyBufBits_zero_spec (dst : List UInt8) (dstStart : Nat) (src : List UInt8) (srcStart n : Nat)
+    (hs : srcStart + n ≤ 8 * src.length) (hd : dstStart + n ≤ 8 * dst.length) :
+    ∃ dst', copyBufBits dst dstStart src srcStart n true = ok dst' ∧ dst'.length = dst.length ∧
+      bytesToBits dst' = splice (bytesToBits dst) dstStart
+        (slice (bytesToBits src) srcStart n ++ List.replicate (padTo8 (dstStart + n)) false) :=
+  copyBufBits_spec dst dstStart src srcStart n hs hd
+
+/-- non-vacuity: the byte view of a 13-bit reader, read 1 byte at a time: 0xab, then 0xc8 (5 bits + 3 zero
+    bits) together with EOF -/
+example :
+    WFAt 3 (den (newBitReader [0xab, 0xcd] (some 13))) (newBitReader [0xab, 0xcd] (some 13)) 0 ∧
+    readAll 4 (.ioBytes (newBitReader [0xab, 0xcd] (some 13)) false none {} 0) [1, 1, 1] = ([0xab, 0xc8], some .eof) := by
+  refine ⟨⟨?_, rfl, rfl, rfl⟩, by decide⟩
+  exact (newBitReader_wf [0xab, 0xcd] (some 13) (by intro nb h; injection h with h; subst h; decide) 0).1
 
 /-! ### aheadreadseeker -/
 
